@@ -185,13 +185,19 @@ def _val_program(cfg):
     with warnings.catch_warnings():
         warnings.simplefilter("ignore")
         loss = jinns.loss.LossODE(u=u, dynamic_loss=dyn, initial_condition=None, params=params0,
-                                  loss_weights=jinns.loss.LossWeightsODE(dyn_loss=cfg["w"]))
+                                  loss_weights=jinns.loss.LossWeightsODE(dyn_loss=cfg["w"], observations=0.5))
     data = jinns.data.DataGeneratorODE(jax.random.PRNGKey(cfg["key"]), cfg["nt"], 0.0, 1.0, cfg["bt"])
     pdat = None
     if cfg["param_gen"]:
         pdat = jinns.data.DataGeneratorParameter(jax.random.PRNGKey(cfg["key"] + 1), cfg["nt"] + 2, cfg["bt"],
                                                  param_ranges={"kappa": (0.0, 0.5)})
-    return loss, params0, data, pdat
+    odat = None
+    if cfg.get("obs_gen"):
+        nobs = cfg["nt"] + 3
+        idx = jnp.arange(nobs, dtype=float)
+        odat = jinns.data.DataGeneratorObservations(jax.random.PRNGKey(cfg["key"] + 2), cfg["bt"], idx[:, None] * 0.1,
+                                                    (0.25 + 0.125 * idx)[:, None])
+    return loss, params0, data, pdat, odat
 
 
 def run_direct(case):
@@ -202,10 +208,10 @@ def run_direct(case):
 
     cfg = case["cfg"]
     labels = ["direct", f"patience{cfg['patience']}", "early-stopping" if cfg["early"] else "no-early-stopping"]
-    loss, params0, data, pdat = _val_program(cfg)
-    val = ValidationLoss(loss=loss, validation_data=data, validation_param_data=pdat, call_every=1,
+    loss, params0, data, pdat, odat = _val_program(cfg)
+    val = ValidationLoss(loss=loss, validation_data=data, validation_param_data=pdat, validation_obs_data=odat, call_every=1,
                          early_stopping=cfg["early"], patience=cfg["patience"])
-    rdata, rpdat = data, pdat
+    rdata, rpdat, rodat = data, pdat, odat
     best = float("inf")
     counter = 0
     improvements = 0
@@ -213,10 +219,12 @@ def run_direct(case):
         p = eqx.tree_at(lambda q: q.eq_params["theta"], params0, jnp.asarray(th))
         new, stop, crit, improved = val(p)
         # reference: loss on the module's own next batch
-        batch, rdata, rpdat, _ = next_batch(rdata, rpdat, None)
+        batch, rdata, rpdat, rodat = next_batch(rdata, rpdat, rodat)
         want = float(loss.evaluate(p, batch)[0])
         kap = np.zeros(cfg["bt"]) if pdat is None else np.asarray(batch.param_batch_dict["kappa"])[:, 0]
         formula = cfg["w"] * float(np.mean((th + kap) ** 2))
+        if odat is not None:  # u == 0: the observation term is 0.5 * mean(val^2) over the module's own observation batch
+            formula += 0.5 * float(np.mean(np.asarray(batch.obs_batch_dict["val"]) ** 2))
         if not abs(want - formula) <= 1e-9 * (1 + abs(formula)):
             return fail("harness-formula", {"want": want, "formula": formula}, labels=labels)
         if not abs(float(crit) - formula) <= 1e-9 * (1 + abs(formula)):
@@ -248,7 +256,7 @@ def strat_direct():
     def s(draw):
         nt = draw(st.integers(2, 6))
         cfg = {"nt": nt, "bt": draw(st.integers(1, nt)), "key": draw(st.integers(0, 10**6)), "w": draw(st.sampled_from([1.0, 0.5, 2.0])),
-               "param_gen": draw(st.booleans()), "patience": draw(st.integers(0, 4)), "early": draw(st.booleans()),
+               "param_gen": draw(st.booleans()), "obs_gen": draw(st.booleans()), "patience": draw(st.integers(0, 4)), "early": draw(st.booleans()),
                "thetas": draw(st.lists(st.sampled_from([2.0, 1.5, 1.25, 1.0, 0.75, 0.5, 0.25]), min_size=2, max_size=9))}
         return {"cfg": cfg}
 
@@ -272,6 +280,8 @@ def run_solve_validation(case):
     out = jinns.solve(n_iter=n_iter, init_params=prog["params"], data=prog["data"], loss=prog["loss"],
                       optimizer=prog["optimizer"], validation=val, verbose=False)
     ref = reference_loop(prog, n_iter)
+    if not np.all(np.isfinite(ref["loss"])):
+        return ok(nontrivial=False, labels=labels + ["diverged-skipped"])
     vdata = vprog["data"]
     best, counter, best_idx = float("inf"), 0, 0
     want_crit = np.zeros(n_iter)
@@ -318,7 +328,7 @@ def strat_solve_validation():
 
     @st.composite
     def s(draw):
-        cfg = draw(program_cfgs(aux=False, max_iter=8))
+        cfg = draw(program_cfgs(kinds=("ode", "statio", "nonstatio"), aux=False, max_iter=8))
         cfg["tracked"] = "none"
         # ascent / descent / noisy optimizers give improving and non-improving sequences
         cfg["opt"] = draw(st.sampled_from(["sgd", "adam", "sgd_piecewise", "sgd_momentum"]))
